@@ -674,8 +674,17 @@ package jobs
 //@     assert [C08:the-proxy-check-looks-at-the-configured-sink-dataset] $arg1 == cast(jobConfig.Sink["Name"], "string") && $arg0 == s.DatasetManager
 // (parseSource was tried as a unit: the DatasetSource / MultiSource cases verify, but the UnionDatasetSource case - a
 // loop that calls parseSource recursively on definitions built on the fly - leaves the solvers without an answer)
-//@ assumed (*Scheduler).parseSource
-//@   preserves Scheduler.*, JobConfiguration.*, Runner.*, []*jobs.JobConfiguration
+// (ParseDependencies fills the dependency list of the source it is called on, from the definition and, through the
+// transform's track_queries hook, from the transform code; it leaves the source's name, mode and the definition alone: assumed)
+//@ assumed (*source.MultiSource).ParseDependencies
+//@   preserves MultiSource.LatestOnly, MultiSource.DatasetName, MultiSource.Store, MultiSource.DatasetManager, DatasetSource.*, map[string]interface{}, JobConfiguration.*, Scheduler.*, Runner.*, []*jobs.JobConfiguration
+//@ unit (*Scheduler).parseSource
+//@   prop C08 C18 C14
+//@   requires s != nil && jobConfig != nil
+//@   frame-assumed preserves Scheduler.*, JobConfiguration.*, Runner.*, []*jobs.JobConfiguration
+//@   ensures [C08,C14:a-dataset-source-reads-the-dataset-named-in-the-job-definition] ret1 == nil && typeof(ret0) == typeid("*source.DatasetSource") && typeof(old(jobConfig.Source["Name"])) == typeid("string") ==> cast(ret0, "*source.DatasetSource").DatasetName == cast(old(jobConfig.Source["Name"]), "string")
+//@   ensures [C08,C14:a-dataset-source-reads-latest-only-exactly-when-the-job-definition-says-so] ret1 == nil && typeof(ret0) == typeid("*source.DatasetSource") && has(old(jobConfig.Source), "LatestOnly") && typeof(old(jobConfig.Source["LatestOnly"])) == typeid("bool") ==> cast(ret0, "*source.DatasetSource").LatestOnly == cast(old(jobConfig.Source["LatestOnly"]), "bool")
+//@   ensures [C18,C14:a-multi-source-reads-latest-only-exactly-when-the-job-definition-says-so] ret1 == nil && typeof(ret0) == typeid("*source.MultiSource") && has(old(jobConfig.Source), "LatestOnly") && typeof(old(jobConfig.Source["LatestOnly"])) == typeid("bool") ==> cast(ret0, "*source.MultiSource").LatestOnly == cast(old(jobConfig.Source["LatestOnly"]), "bool")
 // a definition's transform section either yields a usable transform object, no transform at all, or an error: never an
 // interface value that is non-nil but wraps a nil pointer (the pipelines test `transform != nil` before they call it)
 //@ assumed jobs.NewJavascriptTransform
